@@ -28,7 +28,7 @@ def make():
         if not ok:
             print(log[-3000:])
             return 1
-        obs, bases, errs = C.run_impl(parts, lambda c: ["ser"], gdir, "/tmp/pinned_gen_target", "gold")
+        obs, bases, errs = C.run_impl(parts, lambda c: ["ser"], gdir, "/tmp/pinned_gen_target", "gold", binprefix="gen_s")
     finally:
         C.REPO, C.HARNESS = saved
     out = []
@@ -152,7 +152,9 @@ def run_gold():
     from .coqstage import build as coq_build
     g = load()
     gdir = os.path.join(CACHE, "gen", "golden")
-    tdir = os.path.join(CACHE, "gen-target")
+    # its own target directory: the crates have the same names as the campaign's (the type names in
+    # the stored headers contain them), so sharing one would let either build overwrite the other's binaries
+    tdir = os.path.join(CACHE, "gen-target-golden")
     parts = write_gold_workspace(g, gdir)
     errs = []
     okc, logc = coq_build()
@@ -172,7 +174,7 @@ def run_gold():
             x.cid, x.tid, x.g = c["cid"], c["tid"], c
             px.append(x)
         xs.append(px)
-    iobs, bases, e2 = C.run_impl(xs, lambda x: ["ser", "feed", "gold:" + x.g["bytes"]], gdir, tdir, "gold")
+    iobs, bases, e2 = C.run_impl(xs, lambda x: ["ser", "feed", "gold:" + x.g["bytes"]], gdir, tdir, "gold", binprefix="gen_s")
     errs += e2
     # model: one file per shard
     cmds = []
